@@ -19,7 +19,7 @@ from fractions import Fraction as Fr
 import numpy as np
 
 PROP = 'C10'
-TARGETS = ['T13o', 'T13e']
+TARGETS = ['T13o', 'T13e', 'T13w']
 LEAN_MODULES = ['HdVerif.Props.C10']
 MODEL_MODULES = ['HdVerif.Model.Affine']
 NAMESPACE = 'HdVerif.C10'
@@ -57,6 +57,91 @@ def _call(fn, *a, **k):
         return ('ok', fn(*a, **k))
     except Exception as e:  # noqa: BLE001
         return ('err', _err_kind(e))
+
+
+_CTX = [None]
+
+
+def _snap(x):
+    """deep snapshot of an argument (arrays: values, dtype, shape, strides of the base view do not matter)"""
+    if isinstance(x, np.ndarray):
+        return ('nd', x.dtype.str, x.shape, x.copy())
+    if isinstance(x, (list, tuple)):
+        return ('seq', type(x).__name__, [_snap(v) for v in x])
+    if isinstance(x, dict):
+        return ('dict', {k: _snap(v) for k, v in x.items()})
+    return ('val', x if isinstance(x, (int, float, str, bool, type(None))) else id(x))
+
+
+def _same(a, b):
+    if a[0] != b[0]:
+        return False
+    if a[0] == 'nd':
+        return a[1] == b[1] and a[2] == b[2] and np.array_equal(a[3], b[3], equal_nan=True)
+    if a[0] == 'seq':
+        return a[1] == b[1] and len(a[2]) == len(b[2]) and all(_same(x, y) for x, y in zip(a[2], b[2]))
+    if a[0] == 'dict':
+        return a[1].keys() == b[1].keys() and all(_same(a[1][k], b[1][k]) for k in a[1])
+    return a[1] == b[1]
+
+
+def _result_key(v):
+    if isinstance(v, np.ndarray):
+        return ('nd', v.shape, v.tobytes())
+    if hasattr(v, 'affine') and isinstance(getattr(v, 'affine'), np.ndarray):
+        return ('tr', type(v).__name__, v.affine.tobytes())
+    if isinstance(v, (list, tuple)):
+        return ('seq', [_result_key(x) for x in v])
+    return ('val', repr(v))
+
+
+def _pcall(fn, *a, **k):
+    """`_call` + purity: the function is called TWICE with the same argument objects; no argument may be changed by either call
+    and both calls must give the same result (no writes into caller-owned arrays, no hidden state)."""
+    ctx = _CTX[0]
+    before = _snap([list(a), k])
+    st1, v1 = _call(fn, *a, **k)
+    mid = _snap([list(a), k])
+    st2, v2 = _call(fn, *a, **k)
+    after = _snap([list(a), k])
+    if ctx is not None:
+        name = getattr(fn, '__qualname__', getattr(fn, '__name__', type(fn).__name__))
+        if not _same(before, mid) or not _same(before, after):
+            changed = [kk for kk in k if not _same(_snap(k[kk]), before[2][1][1][kk])] + \
+                      [i for i in range(len(a)) if not _same(_snap(a[i]), before[2][0][2][i])]
+            ctx.fail({'fn': name, 'what': 'arguments', 'changed': changed, 'before': repr(before[2])[:600], 'after': repr(after[2])[:600]},
+                     'an argument object was modified by the call', site='purity')
+        elif st1 != st2 or (st1 == 'ok' and _result_key(v1) != _result_key(v2)) or (st1 != 'ok' and v1 != v2):
+            ctx.fail({'fn': name, 'what': 'repeat', 'args': repr(before[2])[:600]}, 'a second identical call gives a different result', site='purity')
+    return st1, v1
+
+
+def _present(r, x, dtypes=True):
+    """the same numbers as list, tuple, float64 array (C order), a strided / Fortran-ordered float64 VIEW of a larger array, or -
+    when the values survive it exactly - float32 / integer arrays"""
+    arr = np.array(x, dtype=np.float64)
+    k = r.randrange(7)
+    if k == 0:
+        return arr.tolist()
+    if k == 1:
+        return tuple(arr.tolist()) if arr.ndim == 1 else tuple(tuple(v) for v in arr.tolist())
+    if k == 2:
+        return arr.copy()
+    if k == 3:
+        if arr.ndim == 1:
+            big = np.zeros(2 * arr.shape[0] + 1)
+            big[1::2] = arr
+            return big[1::2]
+        return np.asfortranarray(arr)
+    if k == 4:
+        big = np.full((arr.shape[0] + 2,) + arr.shape[1:], 7.0)
+        big[1:-1] = arr
+        return big[1:-1]
+    if k == 5 and dtypes and np.array_equal(arr.astype(np.float32).astype(np.float64), arr):
+        return arr.astype(np.float32)
+    if k == 6 and dtypes and np.array_equal(np.round(arr), arr):
+        return arr.astype(np.int64)
+    return arr.copy()
 
 
 def R(x):
@@ -217,8 +302,9 @@ def _affine_cases(ctx, reqs, pend):
                 ps = [1.0, 1.0, 1.0]
         conv_arg, hand_arg = _spell(r, conv, hand)
         # --- create_rotation_matrix
-        st, val = _call(sp.create_rotation_matrix, pl['ori'], index_convention=conv_arg, slices_first=sf,
-                        handedness=hand_arg, pixel_spacing=ps, spacing_between_slices=sbs)
+        st, val = _pcall(sp.create_rotation_matrix, _present(r, pl['ori']) if len(pl['ori']) == 6 else pl['ori'],
+                         index_convention=conv_arg, slices_first=sf, handedness=hand_arg,
+                         pixel_spacing=_present(r, ps) if isinstance(ps, list) and bad is None else ps, spacing_between_slices=sbs)
         case = {'fn': 'create_rotation_matrix', 'plane': pl, 'conv': conv, 'hand': hand, 'slices_first': sf, 'ps': ps,
                 'sbs': sbs, 'bad': bad}
         key = None
@@ -236,8 +322,10 @@ def _affine_cases(ctx, reqs, pend):
         tol = 0 if _exact(pl, sbs) else TOL * 8
         pend.append((case, (st, val), tol))
         # --- create_affine_matrix_from_attributes (L/U are refused there; scalar spacing is a TypeError)
-        st, val = _call(sp.create_affine_matrix_from_attributes, pl['pos'], pl['ori'], ps, sbs, index_convention=conv_arg,
-                        slices_first=sf, handedness=hand_arg)
+        st, val = _pcall(sp.create_affine_matrix_from_attributes, _present(r, pl['pos']) if bad is None else pl['pos'],
+                         _present(r, pl['ori']) if bad is None else pl['ori'],
+                         _present(r, ps) if isinstance(ps, list) and bad is None else ps, sbs, index_convention=conv_arg,
+                         slices_first=sf, handedness=hand_arg)
         case = dict(case, fn='create_affine_matrix_from_attributes')
         key = None
         if st == 'ok':
@@ -315,16 +403,18 @@ def _transformer_cases(ctx, reqs, pend):
             elif bad == 'pslen':
                 pl['ps'] = pl['ps'] + [1.0]
         args = dict(image_position=pl['pos'], image_orientation=pl['ori'], pixel_spacing=pl['ps'])
+        if bad is None:
+            args = {kk: _present(r, vv) for kk, vv in args.items()}
         margs = {'pos': RL(pl['pos']), 'ori': RL(pl['ori']), 'ps': RL(pl['ps'])}
         idx = _pts_int(r, 3)
         exact = bad is None and _exact(pl)
         sc = _scale(pl, idx) if bad is None else Fr(1)
         tol_f = 0 if exact else TOL * sc
         tol_i = TOL * sc * 64
-        s_p2r, p2r = _call(sp.PixelToReferenceTransformer, **args)
-        s_r2p, r2p = _call(sp.ReferenceToPixelTransformer, spacing_between_slices=sbs, round_output=False, **args)
-        s_i2r, i2r = _call(sp.ImageToReferenceTransformer, **args)
-        s_r2i, r2i = _call(sp.ReferenceToImageTransformer, spacing_between_slices=sbs, **args)
+        s_p2r, p2r = _pcall(sp.PixelToReferenceTransformer, **args)
+        s_r2p, r2p = _pcall(sp.ReferenceToPixelTransformer, spacing_between_slices=sbs, round_output=False, **args)
+        s_i2r, i2r = _pcall(sp.ImageToReferenceTransformer, **args)
+        s_r2i, r2i = _pcall(sp.ReferenceToImageTransformer, spacing_between_slices=sbs, **args)
         base = {'plane': pl, 'sbs': sbs, 'bad': bad}
         okall = all(s == 'ok' for s in (s_p2r, s_r2p, s_i2r, s_r2i))
         if bad is None and not okall:
@@ -478,8 +568,9 @@ def _pair_cases(ctx, reqs, pend):
         margs = {'pos_f': RL(a['pos']), 'ori_f': RL(a['ori']), 'ps_f': RL(a['ps']),
                  'pos_t': RL(b['pos']), 'ori_t': RL(b['ori']), 'ps_t': RL(b['ps'])}
         base = {'from': a, 'to': b, 'kind': kind}
-        s_pp, pp = _call(sp.PixelToPixelTransformer, round_output=False, **kw)
-        s_ii, ii = _call(sp.ImageToImageTransformer, **kw)
+        kw = {kk: _present(r, vv) for kk, vv in kw.items()}
+        s_pp, pp = _pcall(sp.PixelToPixelTransformer, round_output=False, **kw)
+        s_ii, ii = _pcall(sp.ImageToImageTransformer, **kw)
         ctx.case(sample=base if i % 37 == 0 else None, fn='pixel_to_pixel', kind=kind, ori=a['cls'],
                  outcome='ok' if s_pp == 'ok' else pp,
                  nontrivial_key=('pp', kind, a['cls'], i % 5) if s_pp == 'ok' else ('pp-refused', kind))
@@ -523,7 +614,7 @@ def _pair_cases(ctx, reqs, pend):
         else:
             reqs.append(('pixToPix', dict(margs, c=0, r=0)))
             pend.append((dict(base, fn='PixelToPixelTransformer'), (s_pp, pp), tol))
-        st, val = _call(sp._are_images_coplanar, a['pos'], a['ori'], b['pos'], b['ori'])
+        st, val = _pcall(sp._are_images_coplanar, _present(r, a['pos']), _present(r, a['ori']), _present(r, b['pos']), _present(r, b['ori']))
         reqs.append(('coplanar', {'pos_a': RL(a['pos']), 'ori_a': RL(a['ori']), 'pos_b': RL(b['pos']), 'ori_b': RL(b['ori'])}))
         pend.append((dict(base, fn='_are_images_coplanar', layer='L2'), (st, bool(val) if st == 'ok' else val), 0))
 
@@ -566,7 +657,7 @@ def _letters_cases(ctx, reqs, pend):
     for o in oris:
         want = np.column_stack([np.array(LETTER_VEC[c], dtype=float) for c in o])
         for spc in (1.0, [0.5, 2.0, 3.0], [_spacing(r), _spacing(r), _spacing(r)]):
-            st, m = _call(sp.rotation_for_patient_orientation, _spell_letters(r, o), spc)
+            st, m = _pcall(sp.rotation_for_patient_orientation, _spell_letters(r, o), spc)
             case = {'fn': 'rotation_for_patient_orientation', 'letters': o, 'spacing': spc}
             ctx.case(sample=case if o == 'FPL' else None, fn='letters', nontrivial_key=('rot', o, isinstance(spc, list)), outcome=st)
             s3 = [spc] * 3 if not isinstance(spc, list) else spc
@@ -575,7 +666,8 @@ def _letters_cases(ctx, reqs, pend):
                 continue
             if not np.array_equal(m, want * np.array(s3)):
                 ctx.fail(case, {'got': m.tolist(), 'want': (want * np.array(s3)).tolist()}, site='letters')
-            st2, back = _call(sp.get_closest_patient_orientation, m)
+            m_arg = _present(r, m, dtypes=False)
+            st2, back = _pcall(sp.get_closest_patient_orientation, m_arg if isinstance(m_arg, np.ndarray) else m)
             got = ''.join(x.value for x in back) if st2 == 'ok' else back
             if got != o:
                 ctx.fail(dict(case, fn='get_closest_patient_orientation(rotation_for_patient_orientation)'), {'got': got}, site='letters')
@@ -594,7 +686,7 @@ def _letters_cases(ctx, reqs, pend):
             if st3 != 'ok' or ''.join(x.value for x in g.get_closest_patient_orientation()) != o:
                 ctx.fail(dict(case, fn='VolumeGeometry.from_components(patient_orientation)'), f'{st3}', site='letters')
         # reference-convention change of an affine: row i of the result is the coordinate along letter i
-        st, out = _call(sp._transform_affine_to_convention, A0, (3, 4, 5), _spell_letters(r, 'LPH'), _spell_letters(r, o))
+        st, out = _pcall(sp._transform_affine_to_convention, A0, (3, 4, 5), _spell_letters(r, 'LPH'), _spell_letters(r, o))
         case = {'fn': '_transform_affine_to_convention', 'to': o}
         ctx.case(fn='to_convention', nontrivial_key=('conv', o), outcome=st if st == 'ok' else out)
         wantA = np.eye(4)
@@ -643,7 +735,7 @@ def _letters_cases(ctx, reqs, pend):
             m = np.array([[c, -s, 0], [s, c, 0], [0, 0, 1.0]]) @ np.column_stack(AXIS_PAIRS[rr.randrange(24)] + (E[0],))
             m[:, 2] = np.cross(m[:, 0], m[:, 1])
             cls = '45deg'
-        st, back = _call(sp.get_closest_patient_orientation, m)
+        st, back = _pcall(sp.get_closest_patient_orientation, np.asfortranarray(m) if rr.random() < 0.5 else m)
         got = ''.join(x.value for x in back) if st == 'ok' else back
         case = {'fn': 'get_closest_patient_orientation', 'm': m.tolist(), 'cls': cls}
         ctx.case(fn='closest', ori=cls, outcome=st if st == 'ok' else got, nontrivial_key=('closest', got) if st == 'ok' else None)
@@ -744,7 +836,17 @@ def _components_cases(ctx, reqs, pend):
                 margs.pop('shape', None)
                 kw['position'] = pos[:2]
                 margs['position'] = RL(pos[:2])
-        st, A = _call(sp.create_affine_matrix_from_components, **kw)
+        if bad is None:
+            for kk in ('position', 'center_position'):
+                if kk in kw:
+                    kw[kk] = _present(r, kw[kk])
+            if form == 'seq':
+                kw['spacing'] = _present(r, kw['spacing'])
+            if 'spatial_shape' in kw and r.random() < 0.5:
+                kw['spatial_shape'] = np.array(kw['spatial_shape']) if r.random() < 0.5 else tuple(kw['spatial_shape'])
+            if 'direction' in kw and isinstance(kw['direction'], np.ndarray) and r.random() < 0.5:
+                kw['direction'] = np.asfortranarray(kw['direction'])
+        st, A = _pcall(sp.create_affine_matrix_from_components, **kw)
         case = {'fn': 'create_affine_matrix_from_components', 'args': margs, 'bad': bad}
         key = None
         if bad is None:
@@ -895,9 +997,65 @@ def _dataset_cases(ctx, reqs, pend):
     for i in range(n):
         r = ctx.rng('ds', i)
         pl = _plane(r)
-        kind = ['single', 'perframe', 'shared', 'sparse', 'full', 'full', 'perframe_all', 'full_multi'][i % 8]
+        kind = ['single', 'perframe', 'shared', 'sparse', 'full', 'full', 'perframe_all', 'full_multi', 'localizer'][i % 9]
         case = {'fn': 'for_image', 'kind': kind, 'plane': pl}
         row, col = np.array(pl['ori'][:3]), np.array(pl['ori'][3:])
+        if kind == 'localizer':
+            # a multi-frame image in the patient coordinate system whose frames have DIFFERENT planes: orientation, position and
+            # pixel measures live in the per-frame functional groups and differ from frame to frame (axial + sagittal + oblique)
+            import io
+            import pydicom
+            from gen.images import to_bytes
+            nfr = r.randint(2, 4)
+            planes = [_plane(r) for _ in range(nfr)]
+            sls = [_spacing(r) for _ in range(nfr)]
+            ds = sources.enhanced_multiframe(nfr, 3, 4, orientation=planes[0]['ori'], origin=planes[0]['pos'], pixel_spacing=planes[0]['ps'],
+                                             slice_spacing=sls[0])
+            sh = ds.SharedFunctionalGroupsSequence[0]
+            for f, it in enumerate(ds.PerFrameFunctionalGroupsSequence):
+                it.PlaneOrientationSequence = copy.deepcopy(sh.PlaneOrientationSequence)
+                it.PlaneOrientationSequence[0].ImageOrientationPatient = planes[f]['ori']
+                it.PixelMeasuresSequence = copy.deepcopy(sh.PixelMeasuresSequence)
+                it.PixelMeasuresSequence[0].PixelSpacing = planes[f]['ps']
+                it.PixelMeasuresSequence[0].SpacingBetweenSlices = sls[f]
+                it.PlanePositionSequence[0].ImagePositionPatient = planes[f]['pos']
+            del sh.PlaneOrientationSequence
+            del sh.PixelMeasuresSequence
+            variants = [('memory', ds)]
+            st_b, back = _call(lambda d: pydicom.dcmread(io.BytesIO(to_bytes(d))), ds)
+            if st_b == 'ok':
+                variants.append(('bytes', back))
+            else:
+                ctx.note(f'localizer dataset could not be written: {back}')
+            for vname, dv in variants:
+                # frames are asked for in a shuffled order, so that no answer can lean on the previous one
+                order = list(range(nfr))
+                r.shuffle(order)
+                for f in order:
+                    # what the file holds for this frame (DS values are rounded to 16 characters when written)
+                    item = dv.PerFrameFunctionalGroupsSequence[f]
+                    pos_f = [float(x) for x in item.PlanePositionSequence[0].ImagePositionPatient]
+                    ori_f = [float(x) for x in item.PlaneOrientationSequence[0].ImageOrientationPatient]
+                    ps_f = [float(x) for x in item.PixelMeasuresSequence[0].PixelSpacing]
+                    sbs_f = float(item.PixelMeasuresSequence[0].SpacingBetweenSlices)
+                    if vname == 'memory' and (pos_f != planes[f]['pos'] or ori_f != planes[f]['ori'] or ps_f != planes[f]['ps']):
+                        ctx.note('generator: per-frame attributes not stored as given')
+                    for cls in tcls:
+                        st, t = _call(cls.for_image, dv, frame_number=f + 1)
+                        ctx.case(fn='for_image', kind=kind, outcome=st if st == 'ok' else t,
+                                 nontrivial_key=('ds', kind, vname, cls.__name__, planes[f]['cls']) if st == 'ok' else None)
+                        want = explicit(cls, pos_f, ori_f, ps_f, sbs_f).affine
+                        if st != 'ok' or not np.array_equal(t.affine, want):
+                            ctx.fail(dict(case, cls=cls.__name__, frame=f + 1, frames=nfr, variant=vname),
+                                     {'what': "transformer of a frame differs from the frame's own explicit attributes",
+                                      'got': t.affine.tolist() if st == 'ok' else t, 'want': want.tolist()}, site='for_image')
+                # two frames of the same image with different planes: pixel-to-pixel is refused unless they are coplanar
+                st, t = _call(sp.PixelToPixelTransformer.for_images, dv, dv, frame_number_from=1, frame_number_to=2)
+                st_w, _w = _call(sp.PixelToPixelTransformer, planes[0]['pos'], planes[0]['ori'], planes[0]['ps'],
+                                 planes[1]['pos'], planes[1]['ori'], planes[1]['ps'])
+                if (st == 'ok') != (st_w == 'ok'):
+                    ctx.fail(dict(case, what='for_images between two frames', variant=vname), f'{st} vs explicit {st_w}', site='for_image')
+            continue
         if kind in ('single', 'perframe', 'shared', 'perframe_all'):
             nfr = r.randint(1, 4)
             sl = _spacing(r)
@@ -1223,6 +1381,7 @@ def _compare(ctx, reqs, pend):
 
 
 def run(ctx):
+    _CTX[0] = ctx
     reqs, pend = [], []
     _affine_cases(ctx, reqs, pend)
     _transformer_cases(ctx, reqs, pend)
